@@ -498,6 +498,74 @@ fn var_elems(ctx: &Ctx, seed: u64, n: u64) -> PResult {
 	Ok(())
 }
 
+/// Histories over the in-memory backend: pushes interleaved with rewinds to an earlier leaf boundary, on the
+/// backend that keeps leaf data and on the hash-only one. After every step size, peaks and root must equal the
+/// reference forest built from the leaves that are left (an MMR is a function of its leaf sequence, however the
+/// sequence was arrived at); with leaf data, a proof for a random leaf must verify.
+/// ops: (kind, arg) — kind 0..=5 push `1 + arg % 5` leaves, 6..=8 rewind to `arg`-scaled earlier leaf count.
+fn history_case(ctx: &Ctx, hash_only: bool, seed: u64, ops: &[(u8, u16)], counting: bool) -> PResult {
+	let mut backend: VecBackend<FixElem> = if hash_only { VecBackend::new_hash_only() } else { VecBackend::new() };
+	let mut datas: Vec<Vec<u8>> = vec![];
+	let mut size = 0u64;
+	let mut fresh = 0u64; // every leaf ever pushed gets new content
+	let (mut rewinds, mut push_after_rewind) = (0u32, false);
+	let mut just_rewound = false;
+	for (step, (kind, arg)) in ops.iter().enumerate() {
+		if *kind <= 5 {
+			for _ in 0..(1 + arg % 5) {
+				let e = leaf_data(seed, 1_000_000 + fresh);
+				fresh += 1;
+				let mut p = PMMR::<FixElem, _>::at(&mut backend, size);
+				p.push(&e).map_err(|e| Fail::new("push-err", e))?;
+				size = p.unpruned_size();
+				datas.push(e.bytes());
+			}
+			if just_rewound {
+				push_after_rewind = true;
+			}
+			just_rewound = false;
+		} else {
+			if datas.is_empty() {
+				continue;
+			}
+			let keep = (*arg as usize * (datas.len() + 1)) >> 16;
+			let to = RefMmr::build(&datas[..keep]).size();
+			let mut p = PMMR::<FixElem, _>::at(&mut backend, size);
+			p.rewind(to, &croaring::Bitmap::new()).map_err(|e| Fail::new("rewind-err", e))?;
+			size = p.unpruned_size();
+			datas.truncate(keep);
+			rewinds += 1;
+			just_rewound = true;
+		}
+		let r = RefMmr::build(&datas);
+		let p = PMMR::<FixElem, _>::at(&mut backend, size);
+		let what = format!("{} backend, step {} ({} leaves)", if hash_only { "hash-only" } else { "data" }, step, datas.len());
+		ensure!(size == r.size(), "history-size", "{}: size {} reference {}", what, size, r.size());
+		let root = p.root().map_err(|e| Fail::new("root-err", e))?;
+		ensure!(root == h(&r.root()), "history-root", "{}: root differs from the reference built from the remaining leaves", what);
+		let peaks: Vec<Hash> = p.peaks();
+		let want: Vec<Hash> = r.peak_positions().iter().map(|pp| h(&r.nodes[*pp as usize].hash)).collect();
+		ensure!(peaks == want, "history-peaks", "{}: peak hashes differ from the reference", what);
+		if !hash_only && !datas.is_empty() {
+			let li = (refmmr::blake(&[&seed.to_be_bytes(), &(step as u64).to_be_bytes()])[0] as usize) % datas.len();
+			let pos = r.leaf_positions()[li];
+			let proof = p.merkle_proof(pos).map_err(|e| Fail::new("proof-err", format!("{}: {}", what, e)))?;
+			let mut a = [0u8; 16];
+			a.copy_from_slice(&datas[li][..16]);
+			ensure!(proof.verify(root, &FixElem(a), pos).is_ok(), "history-proof", "{}: honest proof for leaf {} rejected", what, li);
+		}
+	}
+	if counting {
+		ctx.ev.eval();
+		ctx.ev.class(if hash_only { "history:hash-only-backend" } else { "history:data-backend" });
+		if push_after_rewind {
+			ctx.ev.class("history:push-after-rewind");
+			ctx.ev.nontrivial(&("history", hash_only, rewinds.min(6), datas.len().min(64)));
+		}
+	}
+	Ok(())
+}
+
 pub fn run(ctx: &Ctx) -> HResult<()> {
 	let ev = &ctx.ev;
 	ev.rule("sizes 0..N leaves enumerated exhaustively (every push compared with an explicit reference forest: size, peaks, root, every node hash), every leaf's Merkle proof + every single corruption; non-trivial = size with >=2 peaks / proof with both sibling and peak-bagging steps / branch with >=2 levels / large position whose family fits in u64; distinct by (kind, size, position)");
@@ -575,6 +643,14 @@ pub fn run(ctx: &Ctx) -> HResult<()> {
 		ctx.report("bigsizes", &fl.fail.sig, json!({"leaves": fl.value}), &fl.fail.msg);
 	}
 
+	// histories with rewinds, on both in-memory backends
+	{
+		let strat = (any::<bool>(), any::<u64>(), prop::collection::vec((0u8..9, any::<u16>()), 1..40));
+		if let Some(fl) = pbt(ctx.derive_seed("history", 0), ctx.n(3_000, 60_000) as u32, &strat, &ctx.stop, |(ho, s, ops), c| history_case(ctx, *ho, *s, ops, c)) {
+			ctx.report("history", &fl.fail.sig, json!({"hash_only": fl.value.0, "seed": fl.value.1, "ops": fl.value.2}), &fl.fail.msg);
+		}
+	}
+
 	// variable-size elements
 	for k in 0..ctx.n(20, 200) {
 		let n = 1 + ctx.derive_seed("var", k) % 300;
@@ -635,6 +711,10 @@ pub fn replay(ctx: &Ctx, part: &str, case: &Value) -> PResult {
 		"positions" => positions_explicit(ctx, case["height"].as_u64().unwrap_or(10) as u32),
 		"var" => var_elems(ctx, case["seed"].as_u64().unwrap_or(0), case["leaves"].as_u64().unwrap_or(1)),
 		"bigsize" => big_size(ctx, case["leaves"].as_u64().unwrap_or(1), case["data_seed"].as_u64().unwrap_or(0)),
+		"history" => {
+			let ops: Vec<(u8, u16)> = serde_json::from_value(case["ops"].clone()).map_err(|e| Fail::new("harness:replay-parse", e.to_string()))?;
+			history_case(ctx, case["hash_only"].as_bool().unwrap_or(false), case["seed"].as_u64().unwrap_or(0), &ops, false)
+		}
 		_ => Ok(()),
 	}
 }
